@@ -37,8 +37,17 @@ func sameMessage(a, b proto.Message) bool {
 			return x.VerifFlatString() == y.VerifFlatString()
 		}
 	case *sbom.ExternalReference:
+		// field by field, independently of the library's own rendering of a reference
 		if y, ok := b.(*sbom.ExternalReference); ok {
-			return x.VerifFlatString() == y.VerifFlatString()
+			if x.Url != y.Url || x.Comment != y.Comment || x.Authority != y.Authority || x.Type != y.Type || len(x.Hashes) != len(y.Hashes) {
+				return false
+			}
+			for k, v := range x.Hashes {
+				if w, ok := y.Hashes[k]; !ok || w != v {
+					return false
+				}
+			}
+			return true
 		}
 	}
 	return proto.Equal(a, b)
@@ -203,6 +212,23 @@ func runC14(seed int64, n int, dir string, tier string) *Report {
 		check(a, sh, "reordered")
 		o := g.Node(gen.Pick(g, gen.IDPool), rich)
 		check(a, o, "unrelated")
+		if len(a.ExternalReferences) > 0 {
+			// the same text moved from one field of a reference to another: still a different reference
+			mv := cloneNode(a)
+			x := mv.ExternalReferences[g.Int(len(mv.ExternalReferences))]
+			switch {
+			case x.Comment != "" && x.Authority == "":
+				x.Authority, x.Comment = x.Comment, ""
+			case x.Authority != "" && x.Comment == "":
+				x.Comment, x.Authority = x.Authority, ""
+			case x.Comment != x.Authority:
+				x.Comment, x.Authority = x.Authority, x.Comment
+			default:
+				x.Authority = x.Url
+			}
+			check(a, mv, "extref-field-moved")
+			check(mv, a, "extref-field-moved-reverse")
+		}
 		if i%4 == 0 {
 			check(a, &sbom.Node{}, "to-empty")
 			check(&sbom.Node{}, a, "from-empty")
